@@ -419,7 +419,12 @@ func runC08(c *core.Ctx) {
 			if exact {
 				n = w
 			}
-			jag[y] = make([]int, n)
+			// rows carry 0..3 elements of spare capacity holding data: only len(row) counts
+			full := make([]int, n+(y+k)%4)
+			for i := range full {
+				full[i] = -555000 - i
+			}
+			jag[y] = full[:n]
 			for x := range jag[y] {
 				jag[y][x] = fresh()
 				if y < h && x < w {
@@ -571,7 +576,15 @@ func runC08(c *core.Ctx) {
 		case 0:
 			ok = arrTyped(c, "[20]int64", func(i int) [20]int64 { return [20]int64{int64(i), 19: int64(-i)} })
 		case 1:
-			ok = arrTyped(c, "string", func(i int) string { return fmt.Sprint("s", i) })
+			ok = arrTyped(c, "string", func(i int) string {
+				switch i % 5 {
+				case 0:
+					return ""
+				case 1:
+					return fmt.Sprint("t", i, " ")
+				}
+				return fmt.Sprint("s", i)
+			})
 		case 2:
 			ok = arrTyped(c, "uint8", func(i int) uint8 { return uint8(i%255 + 1) })
 		case 3:
